@@ -96,7 +96,7 @@ pub fn oracle_c06_dev(_op: &str, outs: &[String]) -> String {
                 last = Some(f);
             }
         }
-        if o.contains("Ok(SessionExpired)") {
+        if o.contains("Ok(SessionExpired)") || o.contains("=> SessionExpired") {
             expired = true;
         }
     }
@@ -182,7 +182,18 @@ pub fn gen_fault_histories(suite: &str, region: &str, rng: &mut Rng, class_c: bo
     for variant in 0..4 {
         for k in 0..=ncalls {
             let mut h = AHist::new(suite, region, rng.next() & 0xffff, 15, 40, class_c, 57);
-            h.abp();
+            match (k + variant) % 3 {
+                0 => {
+                    h.abp();
+                }
+                1 => {
+                    h.ev(&format!("sess {} {} -", DEVADDR, 0xffff_fffeu32));
+                }
+                _ => {
+                    h.ev(&format!("sess {} {} 7", DEVADDR, 0xffffu32));
+                    h.last_down = Some(7);
+                }
+            }
             let mut script: Vec<String> = vec![];
             // base script: which calls see frames. Class A order: tx lp srx rxs lp lp srx rxs lp
             let frame_at: Option<usize> = match (variant, class_c) {
@@ -363,7 +374,18 @@ pub fn gen_nb_fault_histories(suite: &str, region: &str, rng: &mut Rng, out: &mu
                     continue; // an `Idle` answer to the TxDone interrupt is a radio-driver contract violation (the code panics by design)
                 }
                 let mut h = NHist::new(suite, region, rng.next() & 0xffff, *rng.pick(&[0i32, -20, 35]), *rng.pick(&[100u32, 3000]));
-                h.ev(&format!("abp {}", DEVADDR));
+                match (k + variant) % 3 {
+                    0 => {
+                        h.ev(&format!("abp {}", DEVADDR));
+                    }
+                    1 => {
+                        h.ev(&format!("sess {} {} -", DEVADDR, 0xffff_fffeu32));
+                    }
+                    _ => {
+                        h.ev(&format!("sess {} {} 7", DEVADDR, 0xffffu32));
+                        h.a.last_down = Some(7);
+                    }
+                }
                 let mut call = 0;
                 let mut script_for = |n: usize, call: &mut usize| -> String {
                     let mut items = vec![];
